@@ -269,8 +269,11 @@ class C20(Prop):
                     except asyncio.CancelledError:
                         if i in slow:                           # clean-up that needs a few more loop iterations
                             state[i] = 'C'
-                            for _ in range(4):
-                                await asyncio.sleep(0)
+                            try:
+                                for _ in range(4):
+                                    await asyncio.sleep(0)
+                            except asyncio.CancelledError:
+                                pass
                         state[i] = 'X'
                         raise
                     except TaskError as e:
@@ -396,12 +399,21 @@ class C20(Prop):
 
     @staticmethod
     def _first_err(c, upto):
-        """the first exception in schedule order among the ops[0..upto] that really happened (from the case script)"""
+        """the first exception in schedule order that the helper gets to see among the ops[0..upto] that really happened (from the case
+        script): a failed task, a task ending in CancelledError (for the raising helpers: gather treats a cancelled child as raising
+        it; return_exceptions stores it in place and the online pool swallows it), the body's exception, the caller's cancellation"""
+        fl = c['fl']
         for op in c['ops'][:upto + 1]:
-            if op[0] == 'f' and 0 <= op[1] < len(c['outs']) and c['outs'][op[1]][0] == 'e':
-                return c['outs'][op[1]][1]
+            if op[0] == 'f' and 0 <= op[1] < len(c['outs']):
+                kind = c['outs'][op[1]][0]
+                if kind == 'e' and fl != 'rx':
+                    return c['outs'][op[1]][1]
+                if kind == 'c' and fl in ('rf', 'rc'):
+                    return 'X'
             if op[0] == 'b' and op[1] == 'e':
                 return op[2]
+            if op[0] == 'x':
+                return 'X'
         return None
 
     def oracle(self, c, out):
@@ -427,33 +439,25 @@ class C20(Prop):
             finished = h.startswith('ret:') or h.startswith('exc:')
             sub = {'fl': fl, 'entry': c['entry'], 'n': n, 'outs': outs, 'ops': [c['ops'][j] for j in happened]}
             ferr = self._first_err(sub, len(happened))
-            if fl == 'rx' and h.startswith('exc:'):
-                return f'return_exceptions_total: {at}: the return_exceptions helper raised {h}'
-            if fl in ('rx',) and not finished and all(x.split(':')[0] in ('ok', 'err', 'X') for x in d['s']):
-                return f"return_exceptions_total: {at}: every task is finished {d['s']} but the helper has not returned"
-            if fl in ('rf', 'rc') and not finished and k > 0 and all(x.split(':')[0] in ('ok', 'err', 'X') for x in d['s']):
-                return f"results_in_submission_order: {at}: every task is finished {d['s']} but the helper has not returned"
-            if fl in ('rf', 'rc'):
-                # raise_is_first: whenever the helper has raised, it raised the first exception in schedule order; it never returns
-                # a list once a task has failed (how soon it raises is not part of the contract)
-                if h.startswith('exc:') and h != f'exc:{ferr}':
-                    return f'raise_is_first: {at}: the helper raised {h}; the first exception in schedule order is {ferr}'
-                if h.startswith('ret:') and ferr is not None:
-                    return f'raise_is_first: {at}: the helper returned {h} although a task raised {ferr}'
-            if fl == 'on' and finished:
-                want = f'exc:{ferr}' if ferr is not None else None
-                if want is not None and h != want:
-                    return f'first_exception_wins: {at}: first exception in schedule order is {ferr} but the pool exit gave {h}'
-                if want is None and h.startswith('exc:'):
-                    return f'first_exception_wins: {at}: the pool exit raised {h} although nothing failed'
+            done_states = ('ok', 'err', 'X')
+            if not finished and k > 0 and fl != 'on' and all(x.split(':')[0] in done_states for x in d['s']):
+                tag = 'return_exceptions_total' if fl == 'rx' else 'results_in_submission_order'
+                return f"{tag}: {at}: every task is finished {d['s']} but the helper has not returned"
+            clause = {'rx': 'return_exceptions_total', 'rf': 'raise_is_first', 'rc': 'raise_is_first', 'on': 'first_exception_wins'}[fl]
+            # the error contract: whenever the helper has raised, it raised the first exception in schedule order (for
+            # return_exceptions that can only be the cancellation of its caller); it never returns once there was one
+            if h.startswith('exc:') and h != f'exc:{ferr}':
+                return f'{clause}: {at}: the helper raised {h}; the first exception in schedule order is {ferr}'
+            if h.startswith('ret:') and ferr is not None:
+                return f'{clause}: {at}: the helper returned {h} although exception {ferr} occurred first'
             if h.startswith('ret:'):
                 slots = [x for x in h[4:].split(';') if x != '']
-                want = [('ok:%d' % v) if kind == 'r' else ('err:%d' % v) for kind, v in outs]
+                want = ['ok:%d' % o[1] if o[0] == 'r' else 'X' if o[0] == 'c' else 'err:%d' % o[1] for o in outs]
                 if slots != want:
                     return f'results_in_submission_order: {at}: returned {slots}, submitted outcomes in order are {want}'
             if finished and not finished_before:
-                unfinished = [i for i, x in enumerate(d['s']) if x in ('Q', 'R')]
-                must_be_quiet = h.startswith('ret:') or fl in ('rc', 'on')
+                unfinished = [i for i, x in enumerate(d['s']) if x in ('Q', 'R', 'C')]
+                must_be_quiet = h.startswith('ret:') or fl in ('rx', 'rc', 'on')
                 if must_be_quiet and fl == 'rc' and h.startswith('exc:') and unfinished:
                     return (f'cancel_on_error_cancels_rest: {at}: the helper raised {h} with cancel_on_error=True but tasks {unfinished} '
                             f"are still queued/running after the loop settled: {d['s']}")
@@ -468,8 +472,12 @@ class C20(Prop):
     def classify(self, c, out):
         tags = [f"fl={c['fl']}", f"entry={c['entry']}", f"n={c['n']}", f"tasks={len(c['outs'])}",
                 f"fails={sum(1 for o in c['outs'] if o[0] == 'e')}"]
+        if any(o[0] == 'c' for o in c['outs']):
+            tags.append('task-ends-in-CancelledError')
+        if any(o[0] == 'x' for o in c['ops']):
+            tags.append('caller-cancelled')
         waited = False
-        err = any(o[0] == 'e' for o in c['outs']) or any(o[0] == 'b' and o[1] == 'e' for o in c['ops'])
+        err = any(o[0] in 'ec' for o in c['outs']) or any(o[0] == 'x' for o in c['ops']) or any(o[0] == 'b' and o[1] == 'e' for o in c['ops'])
         last = None
         for ln in out[1:]:
             if ln == 'err':
@@ -492,6 +500,24 @@ class C20(Prop):
             tags.append('had-to-wait-for-permit')
         return (json.dumps(c, sort_keys=True) if (waited or err) else None, tags)
 
+    def extra_checks(self, repo, tier, rng):
+        """the clean-up clauses again with task bodies whose cancellation takes several loop iterations (an `await` in their clean-up):
+        outside the model (its tasks end in the step that cancels them), so only the property itself is evaluated on the real run"""
+        fails = []
+        self._slow_cases = 0
+        for _ in range(600 if tier == 'quick' else 6000):
+            c = self._random_case(rng)
+            k = len(c['outs'])
+            c['slow'] = sorted(rng.sample(range(k), rng.randint(1, k)))
+            self._slow_cases += 1
+            msg = self.oracle(c, self.impl(c))
+            if msg:
+                fails.append((c, msg))
+        return fails
+
+    def extra_coverage(self):
+        return {'slow_cleanup_cases': getattr(self, '_slow_cases', 0)}
+
     # ---- findings / shrinking ---------------------------------------------------------------------
     @staticmethod
     def _tag(msg):
@@ -506,6 +532,12 @@ class C20(Prop):
             except Exception:
                 memo[key] = None
         return memo[key] == tag
+
+    @staticmethod
+    def _drop_slow(c, i):
+        if 'slow' in c:
+            c['slow'] = [x - 1 if x > i else x for x in c['slow'] if x != i]
+        return c
 
     def _minimise(self, c, tag):
         """deterministic greedy reduction to a canonical smallest case failing the same clause of the property"""
@@ -534,19 +566,27 @@ class C20(Prop):
                 if attempt(dict(cur, ops=cur['ops'][:j] + cur['ops'][j + 1:])):
                     changed = True
                     break
+            if cur.get('slow'):
+                if attempt({k_: v_ for k_, v_ in cur.items() if k_ != 'slow'}):
+                    changed = True
+                else:
+                    for j in list(cur['slow']):
+                        if attempt(dict(cur, slow=[x for x in cur['slow'] if x != j])):
+                            changed = True
+                            break
             for i in reversed(range(len(cur['outs']))):
                 ops = [[o[0], o[1] - 1] if (o[0] == 'f' and o[1] > i) else o for o in cur['ops'] if not (o[0] == 'f' and o[1] == i)]
-                if attempt(dict(cur, outs=cur['outs'][:i] + cur['outs'][i + 1:], ops=ops)):
+                if attempt(self._drop_slow(dict(cur, outs=cur['outs'][:i] + cur['outs'][i + 1:], ops=ops), i)):
                     changed = True
                     break
             if cur['n'] > 1:      # compound move: one permit less and one task less
                 for i in reversed(range(len(cur['outs']))):
                     ops = [[o[0], o[1] - 1] if (o[0] == 'f' and o[1] > i) else o for o in cur['ops'] if not (o[0] == 'f' and o[1] == i)]
-                    if attempt(dict(cur, n=cur['n'] - 1, outs=cur['outs'][:i] + cur['outs'][i + 1:], ops=ops)):
+                    if attempt(self._drop_slow(dict(cur, n=cur['n'] - 1, outs=cur['outs'][:i] + cur['outs'][i + 1:], ops=ops), i)):
                         changed = True
                         break
             for i in range(len(cur['outs'])):
-                for new in (['r', 0], [cur['outs'][i][0], 0]):
+                for new in (['r', 0], ['e', 0] if cur['outs'][i][0] == 'c' else ['r', 0], [cur['outs'][i][0], 0]):
                     if cur['outs'][i] != new and attempt(dict(cur, outs=cur['outs'][:i] + [new] + cur['outs'][i + 1:])):
                         changed = True
                         break
